@@ -121,6 +121,17 @@ def all_zones():
                 yield {"hk": hk, "days": "mon - fri", "att": "own", "z": z, "L": 60, "start": start, "alap": False, "lv": "none"}
 
 
+def spelling_items():
+    """the zone written in single quotes; the shift declared after the resource that refers to it"""
+    for hk in ("day", "night", "eve"):     # slot-aligned hours and zone offsets only (the misaligned class is the open finding D19)
+        for z in ("America/New_York", "Asia/Tokyo", "Europe/London"):
+            for att in ("own", "shift", "inherit"):
+                yield {"hk": hk, "days": "mon - fri", "att": att, "z": z, "L": 60, "start": STARTS[0], "alap": False, "lv": "none", "q": "single"}
+        for z in (None, "America/New_York"):
+            for alap in (False, True):
+                yield {"hk": hk, "days": "mon - sun", "att": "shift-late", "z": z, "L": 60, "start": STARTS[0], "alap": alap, "lv": "none"}
+
+
 def to_spec(it):
     L, start = it["L"], it["start"]
     spec = {"start": start, "dur": "2w", "res_min": L if L != 60 else None, "alap": it["alap"]}
@@ -130,15 +141,19 @@ def to_spec(it):
     resources = [r]
     if att == "own":
         r["hours"] = hours
-    elif att == "shift":
+    elif att in ("shift", "shift-late"):
         spec["shifts"] = [{"id": "s1", "hours": hours}]
         r["shift"] = "s1"
+        if att == "shift-late":
+            spec["shifts_after"] = True   # the shift is declared after the resource that refers to it
     elif att == "inherit":
         resources = [{"id": "grp", "hours": hours, "children": [r]}]
     elif att == "project":
         spec["pwh"] = hours
     if it["z"]:
         (resources[0] if att == "inherit" else r)["tz"] = it["z"]
+        if it.get("q") == "single":
+            (resources[0] if att == "inherit" else r)["tzq"] = "'"
     lv = LEAVES[it["lv"]]
     if lv.get("res"):
         r["leaves"] = [{**x, "a": _subst(start, x["a"]), "b": _subst(start, x.get("b"))} for x in lv["res"]]
@@ -157,6 +172,9 @@ def evaluate(item):
         return wide.eval_c02(item)
     spec = to_spec(item)
     obs = common.run_spec(spec)
+    if obs.get("error") and item["att"] == "shift-late" and obs["error"][0] == "parse" and obs["error"][1] == "builtins.ValueError":
+        # refusing a reference to a shift that is not declared yet is fine; accepting it and working other hours is not
+        return common.errored(item, obs, skip=True)
     if obs.get("error"):
         return common.errored(item, obs)
     r = common.base_result(item, obs)
@@ -211,6 +229,7 @@ def sample(item):
 def run(ctx):
     st = Stats()
     explore(ctx, universe(ctx.tier), "mc.props.c02:evaluate", st, payload=payload, sample_of=sample, trait=trait, timeout=120)
+    explore(ctx, spelling_items(), "mc.props.c02:evaluate", st, payload=payload, sample_of=sample, trait=trait, timeout=120)
     from mc.props import wide
     wide.sweep(ctx, st, "C02")
     common.vacuity_guard(ctx, st)
